@@ -7,13 +7,16 @@ import S3V.Crypto.Base64
 /-!
 Driver for component `secrets` (C16).
 case line:
-`secrets \t id \t kind \t outcome \t backend \t seed \t | \t status \t code \t accepted \t op \t nsinks \t nbytes
+`secrets \t id \t kind \t outcome \t backend \t seed [\t len] \t | \t status \t code \t accepted \t op \t nsinks \t nbytes
  \t nrecords \t hits \t corrsig \t secret(hex) \t ak(hex) \t dbg_secretkey(hex) \t json_secretkey(hex) \t dbg_credentials(opt hex) \t nredacted \t trace \t bin_secretkey(hex)`
 
 * SPEC (independent of the model): any occurrence of a secret (or of a derived signing key) reported by the
   harness's search of the sinks, or found by `SecretsSpec.leaksB` in the renderings on the line, is a SPECFAIL whose
   class names the sink: `secret-in-log`, `secret-in-response`, `secret-in-debug:S3Request`, `secret-in-json:SecretKey`,
   `secret-in-serde-binary:SecretKey`, `derived-key-in-log`, …
+* Secrets of every length are run (1 … 1024 bytes; AGREE classes carry `@tiny|@short|@long|@spilled` when the length is
+  not 40; `@spilled` = `AWS4`+secret exceeds the 128-byte inline staging buffer of `calculate_signature`).  Below 12 bytes
+  only the `AWS4`-prefixed forms and the derived keys are judged (`SecretsSpec.judgedForms`).
 * MODEL: predicts (1) no occurrence anywhere, (2) `{:?}` of the `SecretKey` = `renderDebug Gen.secretKeyDebug`,
   (3) its JSON = `renderSerializeJson Gen.secretKeySerialize` and its rendering through the harness's compact binary
   serde format (`is_human_readable() = false`) = `renderSerializeBinary Gen.secretKeySerialize`, (4) `{:?}` of the credentials the backend received =
@@ -95,7 +98,17 @@ def canarySink (kind : String) : Option String :=
   else if kind = "canary-response" then some "response"
   else none
 
-def judge (fs : List String) : String :=
+/-- where the secret's length sits relative to the 128-byte inline buffer `AWS4`+secret is staged in -/
+def lengthBucket (n : Nat) : String :=
+  if n = 40 then "" else if n < 12 then "@tiny" else if n < 40 then "@short" else if n ≤ 124 then "@long" else "@spilled"
+
+/-- the input part may or may not carry the optional `len` field: drop it -/
+def normalise (fs : List String) : List String :=
+  let (ins, outs) := splitBar fs
+  ins.take 6 ++ ["|"] ++ outs
+
+def judge (fs0 : List String) : String :=
+  let fs := normalise fs0
   match fs with
   | [_comp, id, kind, outcome, backend, _seed, "|", status, code, accepted, _op, nsinks, nbytes, nrecords, hits,
      corrsig, secretH, akH, dbgSkH, jsonSkH, dbgCredH, nredacted, trace, binSkH] =>
@@ -111,10 +124,10 @@ def judge (fs : List String) : String :=
         if !(printable secret && printable ak) then unmodelled id "non-printable-key" else
         -- SPEC
         if let h :: _ := rootFirst hitList then specfail id (hitClass h) hits
-        else if leaksB hexB b64B secret dbgSk then specfail id "secret-in-debug:SecretKey" "found by the driver"
-        else if leaksB hexB b64B secret jsonSk then specfail id "secret-in-json:SecretKey" "found by the driver"
-        else if leaksB hexB b64B secret binSk then specfail id "secret-in-serde-binary:SecretKey" "found by the driver"
-        else if (dbgCred.map (leaksB hexB b64B secret)).getD false then
+        else if leaksJudgedB hexB b64B secret dbgSk then specfail id "secret-in-debug:SecretKey" "found by the driver"
+        else if leaksJudgedB hexB b64B secret jsonSk then specfail id "secret-in-json:SecretKey" "found by the driver"
+        else if leaksJudgedB hexB b64B secret binSk then specfail id "secret-in-serde-binary:SecretKey" "found by the driver"
+        else if (dbgCred.map (leaksJudgedB hexB b64B secret)).getD false then
           specfail id "secret-in-debug:Credentials" "found by the driver"
         else
         -- MODEL
@@ -145,7 +158,8 @@ def judge (fs : List String) : String :=
         else
           agree id (kind ++ ":" ++ (if accepted = "1" then "accepted" else "refused-" ++ code)
                     ++ (if corrsig = "1" then "+valid-signature-logged" else "")
-                    ++ (if trace = repaired && trace ≠ asIs then "+repaired" else ""))
+                    ++ (if trace = repaired && trace ≠ asIs then "+repaired" else "")
+                    ++ lengthBucket secret.length)
     | _, _, _, _, _, _ => badline id
   | _ :: id :: _ => badline id
   | _ => badline "?"
